@@ -154,4 +154,13 @@ func init() {
 		"\tv, err := toValue(func() (*Options, error) { return opts, nil }, c)\n\tif err != nil {\n\t\treturn err\n\t}\n\treturn v", "\tv, err := toValue(func() (*Options, error) { return opts, nil }, c)\n\tif err == nil {\n\t\treturn err\n\t}\n\treturn v", "_tovalue")
 	add("c08-kindsel-ifchain-value-under-sym", "C08.kindsel", D,
 		"\t\tcase decodeValueSym:\n\t\t\tvvv = vv.ScalarSym()\n\t\t}", "\t\tcase decodeValueSym:\n\t\t\tvvv = vv.ScalarValue()\n\t\t}", "select:")
+	// round 4
+	add("c08-errs-null-each-empty", "C08.errs", T,
+		"func (v Null) JQValueEach() any       { return IteratorError{Typ: gojq.JQTypeNull} }",
+		"func (v Null) JQValueEach() any       { return []gojq.PathValue{} }", "Null.Each")
+	add("c08-errs-boolean-has-false", "C08.errs", T,
+		"func (v Boolean) JQValueHas(key any) any {\n\treturn FuncTypeNameError{Name: \"has\", Typ: gojq.JQTypeBoolean}",
+		"func (v Boolean) JQValueHas(key any) any {\n\treturn false", "Boolean.Has")
+	add("c08-errs-base-index-nil", "C08.errs", T,
+		"\treturn ExpectedArrayWithIndexError{Typ: v.Typ, Index: index}", "\treturn nil", "StructDecodeValue.Index")
 }
